@@ -46,9 +46,20 @@ def _transforms(rng, nd):
     pads = [(rng.randint(0, 3), rng.randint(0, 3)) for _ in range(nd)]
     out.append(("pad", lambda a, pads=pads: np.pad(a, pads)))
     out.append(("fortran", lambda a: np.asfortranarray(a)))
-    out.append(("negstride", lambda a: np.flip(np.flip(a, 0), 0)[::1] if a.ndim else a))
+    out.append(("negstride", lambda a: np.ascontiguousarray(a[::-1])[::-1]))  # same content, negative stride along axis 0
     out.append(("noncontig", lambda a: np.pad(a, [(0, 0)] * (a.ndim - 1) + [(0, a.shape[-1])])[..., : a.shape[-1]]))
+    # mixed layouts: only one of the two arrays is re-laid out (t is applied to pred, the identity to ref, and vice versa)
+    out.append(("fortran-pred-only", (lambda a: np.asfortranarray(a), lambda a: np.ascontiguousarray(a))))
+    out.append(("fortran-ref-only", (lambda a: np.ascontiguousarray(a), lambda a: np.asfortranarray(a))))
+    out.append(("negstride-pred-only", (lambda a: np.ascontiguousarray(a[::-1])[::-1], lambda a: a)))
+    out.append(("transposed-view-ref-only", (lambda a: a, lambda a: np.ascontiguousarray(a.T).T)))
     return out
+
+
+def _apply(t, pred, ref):
+    if isinstance(t, tuple):
+        return t[0](pred), t[1](ref)
+    return t(pred), t(ref)
 
 
 def e2e(params):
@@ -85,7 +96,7 @@ def e2e(params):
                 base = _eval(pred.copy(), ref.copy(), it)
                 for name, t in _transforms(rng, nd):
                     try:
-                        got = _eval(t(pred), t(ref), it)
+                        got = _eval(*_apply(t, pred, ref), it)
                     except Exception as e:
                         got = {"raised": f"{type(e).__name__}: {e}"[:100]}
                     if got != base:
@@ -109,12 +120,29 @@ def bounded(params):
     evals += 1
     if bb["violated"]:
         failures.append({"input": "bounding boxes", "problems": bb["problems"][:3], "replay_kind": "c10.bbox"})
-    n = 6 if tier == "quick" else 60
-    for _ in range(n):
+    n = 40 if tier == "quick" else 400
+    for it_no in range(n):
         nd = rng.choice([1, 2, 3])
-        shape = tuple(nrng.randint(3, 6, size=nd)) if nd > 1 else (nrng.randint(6, 12),)
-        pred = (nrng.rand(*shape) < 0.45).astype(np.uint8) * nrng.randint(1, 4, size=shape).astype(np.uint8)
-        ref = (nrng.rand(*shape) < 0.45).astype(np.uint8) * nrng.randint(1, 4, size=shape).astype(np.uint8)
+        if it_no % 2 == 0:
+            shape = tuple(nrng.randint(3, 6, size=nd)) if nd > 1 else (nrng.randint(6, 12),)
+            pred = (nrng.rand(*shape) < 0.45).astype(np.uint8) * nrng.randint(1, 4, size=shape).astype(np.uint8)
+            ref = (nrng.rand(*shape) < 0.45).astype(np.uint8) * nrng.randint(1, 4, size=shape).astype(np.uint8)
+        else:
+            # separated blobs: a few matched pairs plus unmatched instances on either side (several false positives / negatives)
+            shape = {1: (24,), 2: (9, 9), 3: (6, 6, 5)}[nd]
+            pred, ref = np.zeros(shape, np.uint8), np.zeros(shape, np.uint8)
+            for lab in range(1, rng.randint(3, 6)):
+                c = tuple(rng.randrange(0, s, 3) for s in shape)
+                sl = tuple(slice(x, x + 2) for x in c)
+                side = rng.choice(["both", "both", "pred", "pred", "ref"])
+                if side in ("both", "pred") and not pred[sl].any() and not ref[sl].any():
+                    pred[sl] = lab
+                    if side == "both":
+                        ref[sl] = lab
+                        if rng.random() < 0.5:
+                            ref[tuple(slice(x, x + 1) for x in c)] = 0
+                elif side == "ref" and not pred[sl].any() and not ref[sl].any():
+                    ref[sl] = lab
         for it in ("SEMANTIC", "UNMATCHED_INSTANCE", "MATCHED_INSTANCE"):
             try:
                 base = _eval(pred.copy(), ref.copy(), it)
@@ -126,7 +154,7 @@ def bounded(params):
                 if it == "SEMANTIC" and name in ("flip", "transpose"):
                     pass
                 try:
-                    got = _eval(t(pred), t(ref), it)
+                    got = _eval(*_apply(t, pred, ref), it)
                 except Exception as e:
                     got = {"raised": f"{type(e).__name__}: {e}"[:100]}
                 # ties between candidate pairs make the matching order-dependent: compare only when the base run is tie-free (unique scores)
